@@ -55,17 +55,28 @@ def expand_reads(names, stmts_by_out):
     return out
 
 
+def enc(p):
+    return p.replace("%", "%25").replace(" ", "%20")
+
+
+def depfile_of(s):
+    if not s.depfile:
+        return ""
+    d = getattr(s, "depfile_dir", None)
+    return (d + "/" if d else "") + s.id + ".d"
+
+
 def command_of(s, by_out):
     if s.phony:
         return ""
-    parts = ["sim", "o=" + ",".join(s.all_outs() + s.extra_outs)]
+    parts = ["sim", "o=" + ",".join(enc(x) for x in s.all_outs() + s.extra_outs)]
     reads = expand_reads(s.ex + s.im, by_out) + s.extra_reads
     if reads:
-        parts.append("r=" + ",".join(reads))
+        parts.append("r=" + ",".join(enc(x) for x in reads))
     if s.hidden:
-        parts.append("h=" + ",".join(s.hidden))
+        parts.append("h=" + ",".join(enc(x) for x in s.hidden))
     if s.depfile:
-        parts.append("d=" + s.id + ".d")
+        parts.append("d=" + enc(depfile_of(s)))
     if s.deps == "msvc":
         parts.append("msvc=1")
     if s.restat or getattr(s, "dyn_restat", False):
@@ -120,7 +131,10 @@ class Variant:
             if s.desc:
                 lines.append("  description = " + s.desc)
             if s.depfile:
-                lines.append("  depfile = %s.d" % s.id)
+                d = getattr(s, "depfile_dir", None)
+                # written with $out, as build generators do: the path is evaluated by ninja
+                lines.append("  depfile = %s$out.d" % (d + "/" if d else "") if len(s.outs) == 1 and d else
+                             "  depfile = %s.d" % esc_path(s.id))
             if s.deps:
                 lines.append("  deps = " + s.deps)
             if s.restat:
@@ -164,7 +178,7 @@ class Variant:
             "stmts": [{
                 "outs": s.all_outs(), "phony": s.phony, "rule": "phony" if s.phony else "r%d" % i, "ex": s.ex, "im": s.im, "oo": s.oo, "val": s.val,
                 "cmd": command_of(s, by_out), "pool": s.pool, "restat": s.restat, "generator": s.generator,
-                "deps": s.deps, "depfile": (s.id + ".d") if s.depfile else "", "dyndep": s.dyndep,
+                "deps": s.deps, "depfile": depfile_of(s), "dyndep": s.dyndep,
                 "rspfile": s.rsp[0] if s.rsp else "", "rspfile_content": s.rsp[1] if s.rsp else "",
                 "desc": s.desc or "",
             } for i, s in enumerate(self.stmts)],
